@@ -194,8 +194,13 @@ def lanelet_heading(la, k=0):
     return math.atan2(c[k + 1][1] - c[k][1], c[k + 1][0] - c[k][0])
 
 
-def gen_shape(rng, kinds=("rect", "circ", "poly"), scale=1.0, centered=True):
+def gen_shape(rng, kinds=("rect", "circ", "poly"), scale=1.0, centered=True, offset_p=0.0):
     t = rng.pick(list(kinds))
+    if offset_p > 0.0 and t in ("poly", "group") and rng.chance(offset_p):
+        # a shape given in coordinates that do not contain its reference point (the origin)
+        sh = gen_shape(rng, (t,), scale, centered)
+        dx, dy = rng.choice([-1, 1]) * rng.uniform(2.5, 6.0), rng.choice([-1, 1]) * rng.uniform(2.5, 6.0)
+        return _shift(sh, dx, dy)
     if t == "rect":
         return {"t": "rect", "l": rng.uniform(1.0, 5.0) * scale, "w": rng.uniform(0.6, 2.2) * scale}
     if t == "circ":
@@ -214,7 +219,7 @@ def gen_shape(rng, kinds=("rect", "circ", "poly"), scale=1.0, centered=True):
 
 
 def gen_obstacle(rng, oid, net, role=None, horizon=None, shape_kinds=("rect", "circ", "poly"), t0=None,
-                 state_cls=None, on_road=0.8, p_stand=0.0):
+                 state_cls=None, on_road=0.8, p_stand=0.0, interval_steps=0.0, offset_p=0.0):
     role = role or rng.weighted(["static", "dynamic", "dynamic_nopred", "dynamic_set", "env", "phantom"],
                                 [3, 4, 1, 1, 1, 1])
     lanelets = net["lanelets"]
@@ -235,8 +240,11 @@ def gen_obstacle(rng, oid, net, role=None, horizon=None, shape_kinds=("rect", "c
     if role == "phantom":
         occ = [{"t": t0 + k, "shape": _place(gen_shape(rng, ("rect", "circ", "poly")),
                                              [pos[0] + 1.5 * k, pos[1]], ori)} for k in range(horizon)]
+        if interval_steps > 0.0 and rng.chance(interval_steps):
+            for k, o in enumerate(occ):  # occupancies valid for time intervals [t, t+1], [t+2, t+3], ...
+                o["t"] = {"iv": [t0 + 2 * k, t0 + 2 * k + 1]}
         return {"id": oid, "role": "phantom", "pred": {"kind": "set", "t0": t0, "occ": occ}}
-    shape = gen_shape(rng, shape_kinds)
+    shape = gen_shape(rng, shape_kinds, offset_p=offset_p)
     init = {"t": t0, "pos": pos, "ori": ori, "vel": rng.uniform(0, 12), "acc": rng.uniform(-1, 1),
             "yaw": rng.uniform(-0.2, 0.2), "slip": rng.uniform(-0.05, 0.05)}
     ob = {"id": oid, "shape": shape, "init": init, "type": rng.pick(OBST_TYPES)}
@@ -266,6 +274,9 @@ def gen_obstacle(rng, oid, net, role=None, horizon=None, shape_kinds=("rect", "c
             x += v * math.cos(th)
             y += v * math.sin(th)
             occ.append({"t": t0 + k, "shape": _place(gen_shape(rng, ("rect", "poly")), [x, y], th)})
+        if interval_steps > 0.0 and rng.chance(interval_steps):
+            for k, o in enumerate(occ):
+                o["t"] = {"iv": [t0 + 1 + 2 * k, t0 + 2 + 2 * k]}
         ob["pred"] = {"kind": "set", "t0": t0 + 1, "occ": occ}
         return ob
     cls = state_cls or rng.weighted(["ks", "st", "custom"], [5, 2, 1])
@@ -287,6 +298,18 @@ def gen_obstacle(rng, oid, net, role=None, horizon=None, shape_kinds=("rect", "c
         states.append(st)
     ob["pred"] = {"kind": "traj", "states": states}
     return ob
+
+
+def _shift(shape, dx, dy):
+    s = dict(shape)
+    if s["t"] == "poly":
+        s["v"] = [[x + dx, y + dy] for x, y in s["v"]]
+    elif s["t"] in ("rect", "circ"):
+        c = s.get("c", [0.0, 0.0])
+        s["c"] = [c[0] + dx, c[1] + dy]
+    elif s["t"] == "group":
+        s["shapes"] = [_shift(x, dx, dy) for x in s["shapes"]]
+    return s
 
 
 def _place(shape, pos, ori):
